@@ -37,6 +37,7 @@ func C01(r *core.Run) {
 	whoTouchesProto(r)
 	presentNeverSkipped(r, "lib/j5reflect", "propSet.RangeValues", "every present property is encoded") // an allocated but empty wrapper is a value
 	anyContent(r)                                                                                       // an Any of an all-default message still carries (empty) content
+	oneofWrapperAllFields(r)                                                                            // an object with a `oneof type` and sibling fields is an object: as a oneof its populated values cannot be encoded
 }
 
 // encodeDecodeMatrix (R-FLOW/F1): what the encoder writes for a kind, the
